@@ -1,10 +1,6 @@
-CONSTANTS Widths = {2, 3, 4, 5, 6, 7, 8, 9, 10, 11, 12, 13, 20}
+CONSTANTS Widths = {2, 4, 6, 7, 8, 9, 11, 13, 20}
           Deep = TRUE
           Warm = 2
 INIT Init
 NEXT Step
-INVARIANT WideOK
-INVARIANT WidePinned
-INVARIANT WideAt
-INVARIANT PositionFree
 INVARIANT WalkLaw
